@@ -116,6 +116,59 @@ class DelayPool:
         return getattr(self._real, name)
 
 
+class StalledResult:
+    """the handle of a task that is still running when the parent first looks: the first `polls` inquiries are answered the way a
+    real handle answers while its task has not finished - ready() is False, wait(t) returns when t has 'passed', get(t) raises
+    TimeoutError - and after that (and for a get() without timeout) it is the real handle.  A legal behaviour of a slow worker,
+    without the waiting."""
+
+    def __init__(self, real, polls):
+        self._real, self._polls = real, polls
+
+    def _stalled(self):
+        if self._polls > 0:
+            self._polls -= 1
+            return True
+        return False
+
+    def ready(self):
+        return False if self._stalled() else self._real.ready()
+
+    def wait(self, timeout=None):
+        if timeout is not None and self._stalled():
+            return None
+        return self._real.wait(timeout)
+
+    def get(self, timeout=None):
+        if timeout is not None and self._stalled():
+            import multiprocessing
+            raise multiprocessing.TimeoutError()
+        return self._real.get(timeout)
+
+    def successful(self):
+        if self._stalled():
+            raise ValueError("%r not ready" % (self,))
+        return self._real.successful()
+
+    def __getattr__(self, name):
+        return getattr(self._real, name)
+
+
+class StallPool:
+    """every `period`-th task submitted with apply_async gets a StalledResult"""
+
+    def __init__(self, real, period, polls):
+        self._real, self._period, self._polls, self._n = real, period, polls, 0
+
+    def apply_async(self, func, args=(), kwds=None, *a, **k):
+        r = self._real.apply_async(func, args, {} if kwds is None else kwds, *a, **k)
+        self._n += 1
+        return StalledResult(r, self._polls) if (self._n - 1) % self._period == 0 else r
+
+    def __getattr__(self, name):
+        return getattr(self._real, name)
+
+
 class RecordingPool:
     """stands in for the multiprocessing pool; records what each task receives"""
 
@@ -251,6 +304,8 @@ def traced_run(cfg, extra_patches=None):
         real = orig_init(n)
         if cfg.get("delays"):
             real = DelayPool(real, cfg["delays"])       # adverse completion order (needs mp=True and procs >= 2 to matter)
+        if cfg.get("stall"):
+            real = StallPool(real, *cfg["stall"])       # (period, polls): some tasks look unfinished for the first few inquiries
         return RecordingPool(real, tasks)
     _verif.clear_listeners()
     _verif.add_listener(listener)
@@ -271,6 +326,25 @@ def traced_run(cfg, extra_patches=None):
     try:
         if extra_patches:
             undo = extra_patches()
+        if cfg.get("relabel_script"):
+            # the relabelling phase answers with a scripted sequence of labellings (K = 2) instead of its own: a legal behaviour of
+            # that phase as far as the main loop can tell (the loop is specified for arbitrary phase functions; the real phase does
+            # cycle on rare inputs).  "cycle2": A, B, A, B, ...   "cycle3": A, B, C, A, ...   "settle": A, B, B, ...
+            from fast_ticc import cluster_label_assignment as _cla
+            _orig_predict = _cla.predict_cluster_labels
+            _count = {"n": 0}
+
+            def _scripted(model, data, *a_, **k_):
+                new = _orig_predict(model, data, *a_, **k_)
+                T_ = len(new.point_labels)
+                cuts = {"cycle2": [T_ // 2, T_ // 2 + 3], "cycle3": [T_ // 2, T_ // 2 + 3, T_ // 2 - 4],
+                        "settle": [T_ // 2] + [T_ // 2 + 3] * 50}[cfg["relabel_script"]]
+                h = cuts[_count["n"] % len(cuts)]
+                _count["n"] += 1
+                new.point_labels = [0] * h + [1] * (T_ - h)
+                return new
+            _cla.predict_cluster_labels = _scripted
+            undo = list(undo) + [lambda: setattr(_cla, "predict_cluster_labels", _orig_predict)]
         with contextlib.redirect_stdout(io.StringIO()):
             if cfg.get("joint"):
                 res = front_end.ticc_joint_labels([s for s in series], **kw)
@@ -418,6 +492,8 @@ def standard_grid(seed, thorough=False):
              delays=[0.35, 0.0, 0.0]),
         dict(N=1, W=3, K=4, beta=2.0, lam=0.11, limit=2, m=2, biased=True, eps=0, joint=True, lengths=[70, 60], regimes=3, mp=True, procs=4,
              delays=[0.45, 0.3, 0.15, 0.0]),
+        # a worker that is slow to answer: the first task of every round still looks unfinished the first three times the parent asks
+        dict(N=2, W=2, K=3, beta=4.0, lam=0.11, limit=3, m=2, biased=False, eps=0, joint=False, lengths=[110], regimes=3, stall=(3, 3)),
     ]
     # as many regimes as clusters and a large refill size: a cluster is starved in mid-run, refilled, and the run converges with
     # every cluster populated (data seeds fixed: the event sequence was observed on the validated tree)
